@@ -3,7 +3,7 @@ import json
 import os
 
 from .. import artefact, tlc, progs
-from ..common import Scratch, Timer, tier, seed, MachineryError
+from ..common import is_ret,  Scratch, Timer, tier, seed, MachineryError
 from ..report import Report
 
 LEVEL = "model_checking"
@@ -15,7 +15,7 @@ MC = {}
 def synth_case(cid, inputs, exprs, retbits, unc, ev, gates, nq, qmap):
     names = [n for n, _ in exprs]
     return {"id": cid, "inputs": inputs, "exprs": exprs, "unc": unc, "ev": ev,
-            "rets": sorted({n for n in names if n.startswith("_ret")}),
+            "rets": sorted({n for n in names if is_ret(n)}),
             "temps": sorted({n for n in names if n.startswith("__")}),
             "retbits": retbits, "gates": [{"w": g["w"]} for g in gates], "nq": nq, "qmap": qmap}
 
@@ -101,7 +101,7 @@ def run(pid):
                 raise MachineryError("hook events missing: is QLASSKIT_VERIF honoured by the tree under test?")
             names = [n for n, _ in a["exprs"]]
             scases.append({"id": c["id"], "inputs": c["inputs"], "exprs": c["exprs"], "unc": c["unc"], "ev": a["ev"],
-                           "rets": sorted({n for n in names if n.startswith("_ret")}),
+                           "rets": sorted({n for n in names if is_ret(n)}),
                            "temps": sorted({n for n in names if n.startswith("__")}),
                            "retbits": c["rets"], "gates": [{"w": g["w"]} for g in c["gates"]], "nq": c["nq"], "qmap": c["qmap"]})
         sverd, sstats = tlc.run_cases("Trace_Synth", scases, sc, timeout=2400, heap="4g")
